@@ -392,23 +392,39 @@ func x3(w *World, r *Report) {
 		}
 	}
 	bad := ""
-	for _, ex := range exitsAvoiding(ipos{fn.Blocks[0], 0}, func(in ssa.Instruction) bool {
-		for _, rs := range resets {
-			if rs == in {
-				return true
+	// every successful path of Commit (helpers expanded) resets the mempool overlay
+	{
+		resetEv := func(in ssa.Instruction) string {
+			if c, ok := in.(ssa.CallInstruction); ok && callName(c.Common()) == "reset" && strings.HasSuffix(w.Canon(c.Common().Args[0]), ".cachedItems") {
+				return "RESET"
+			}
+			return ""
+		}
+		paths, complete := w.enumPaths(fn, func(ssa.Value) (bool, bool) { return false, false }, resetEv, 4000)
+		if !complete {
+			bad = "path enumeration incomplete"
+		}
+		nOK := 0
+		for _, p := range paths {
+			if p.Term == "ok" {
+				nOK++
+				if len(p.Events) == 0 {
+					bad = "a success return without reset"
+					if p.Ret != nil {
+						bad = site(w, p.Ret)
+					}
+				}
 			}
 		}
-		return false
-	}, nil) {
-		if ret, ok := ex.(*ssa.Return); ok && w.errState(ret) == triNil {
-			bad = site(w, ret)
+		if nOK == 0 {
+			bad = "no success path"
 		}
 	}
 	var sites []string
 	for _, rs := range resets {
 		sites = append(sites, site(w, rs))
 	}
-	r.Check(len(resets) > 0 && bad == "", "X-3", "FinalityLedger.Commit:cachedItems.reset", "every success return of Commit discards the mempool overlay", "a success return of FinalityLedger.Commit leaves the mempool overlay in place: "+bad, sites...)
+	r.Check(bad == "", "X-3", "FinalityLedger.Commit:cachedItems.reset", "every success return of Commit discards the mempool overlay", "a success return of FinalityLedger.Commit leaves the mempool overlay in place: "+bad, sites...)
 }
 
 func x4(w *World, r *Report, x *ExecCtx) {
